@@ -16,7 +16,7 @@ import streams as S
 
 TRUSTED = [
     "Coq 8.16.1 kernel (coqc; vm_compute used for finite sweeps; no native_compute)",
-    "translators tools/gen_consts.py (T1-T3,T5,T6): constants/guards/OIDs/types/features read from /repo on every run",
+    "translators tools/gen_consts.py (T1-T3,T5,T6): constants, guards, domain bytes, draw sizes, OIDs, type descriptors, features, the inventory of explicit panic sites, the method lists of the trait impls and the list of drop-suppressing constructs, read from /repo on every run",
     "translator tools/gen_kernels.py + tools/rustmini.py (T4): the arithmetic kernels of helpers.rs/high_low.rs/ntt.rs/conversion.rs regenerated into coq/Gen/Kernels.v on every run and proved equal to the hand model in Proofs/KernelAgree.v (the translator's reading of Rust's integer semantics is trusted: checked + - * neg abs, wrapping <<, arithmetic >>, two's-complement & | ^, as/from conversions, left-to-right evaluation)",
     "hand-written Gallina model coq/Impl/*.v tied to the code by the correspondence streams listed under coverage.streams",
     "FIPS 204 transcription coq/Spec/*.v (validated on the ACVP vectors shipped in /repo/tests)",
